@@ -18,11 +18,12 @@ SLACK_MS = 3000         # scheduling slack of the time predicate only (machine s
 
 # the implementation-shaped model: constants of MC_C06 / FlowQueueI
 GOOD = dict(SplitSlotCheck=False, RequeueNewTs=False, StopAllGuarded=True, DrainRepeats=True,
-            WatcherArbitrates=True, HeapFifo=True, SlotStrict=True, CallsStopAll=True)
+            WatcherArbitrates=True, HeapFifo=True, SlotStrict=True, CallsStopAll=True,
+            PushBeforeRegister=False, FaultDropsHead=False)
 # the code as it is in /repo: repaired defects are GOOD, open findings keep their deviation (known_findings.json)
 KF_FLAGS = {"C06-O12-requeue-loses-position": ("RequeueNewTs", True)}
-SMALL2 = dict(Req=["r1", "r2"], Prio="cPrio2", TTL=2, Slack=1, QueueSize=1, QMax=1, QW=2, MaxNow=5, Shutdowns=True)
-SMALL3 = dict(Req=["r1", "r2", "r3"], Prio="cPrio3", TTL=2, Slack=1, QueueSize=2, QMax=1, QW=1, MaxNow=3, Shutdowns=False)
+SMALL2 = dict(Req=["r1", "r2"], Prio="cPrio2", TTL=2, Slack=1, QueueSize=1, QMax=1, QW=2, MaxNow=5, Shutdowns=True, Faults=False)
+SMALL3 = dict(Req=["r1", "r2", "r3"], Prio="cPrio3", TTL=2, Slack=1, QueueSize=2, QMax=1, QW=1, MaxNow=3, Shutdowns=False, Faults=False)
 PRIOS = {"cPrio2": {"r1": 0, "r2": 0}, "cPrio2m": {"r1": 1, "r2": 0},
          "cPrio3": {"r1": 0, "r2": 0, "r3": 1}, "cPrio3m": {"r1": 1, "r2": 0, "r3": 0}}
 SAFETY = ["TypeOK", "OneVerdict", "OnlyIfQuota", "Order", "SizeBound", "NoCrash", "Protocol", "Faithful"]
@@ -39,14 +40,16 @@ VARIANTS = {
     "mut-heap-not-fifo": (SMALL3, dict(HeapFifo=False), "Order"),
     "mut-slot-off-by-one": (SMALL2, dict(SlotStrict=False), "SizeBound"),
     "mut-no-stopall": (SMALL2, dict(CallsStopAll=False), "PROP:DrainReleases"),
+    "mut-push-before-register": (dict(SMALL2, Prio="cPrio2m", QueueSize=2), dict(PushBeforeRegister=True), "Order"),
+    "mut-fault-drops-head": (dict(SMALL2, Prio="cPrio2m", QueueSize=2, Faults=True), dict(FaultDropsHead=True), "Order"),
 }
 
 # label-to-label transitions of FlowQueueI (the model of the code as it is): coverage of the forced schedules
-EDGES = {("R", "Arrive", "Enroll"), ("R", "Arrive", "Refuse"), ("R", "Enroll", "Wait"), ("R", "Enroll", "Refuse"),
+EDGES = {("R", "Arrive", "Enroll"), ("R", "Arrive", "Refuse"), ("R", "Enroll", "Push"), ("R", "Push", "Wait"), ("R", "Enroll", "Refuse"),
          ("R", "Wait", "Return"), ("R", "Return", "Remove"), ("R", "Remove", "Done"), ("R", "Refuse", "Done"),
          ("loop", "Tick", "Pop"), ("loop", "Tick", "Tick"), ("loop", "Pop", "Grant"), ("loop", "Pop", "Requeue"),
          ("loop", "Pop", "Pop"), ("loop", "Pop", "Tick"), ("loop", "Grant", "Pop"), ("loop", "Grant", "Tick"),
-         ("loop", "Requeue", "Tick"), ("watcher", "Scan", "Signal"), ("watcher", "Signal", "Scan"),
+         ("loop", "Requeue", "Tick"), ("loop", "Pop", "Faulted"), ("loop", "Faulted", "Tick"), ("watcher", "Scan", "Signal"), ("watcher", "Signal", "Scan"),
          ("shutdown", "Cancel", "Done"), ("clock", "Tk", "Tk")}
 
 CLASS = {"T_Order": "order-inversion", "T_SizeBound": "size-bound", "T_NoCrash": "crash", "T_InTTL": "no-verdict-in-ttl",
@@ -102,7 +105,7 @@ def steps_from_dump(path):
 HOLDS = ["q.loop_tick", "q.loop_pop", "q.quota", "q.after_slot_check", "q.before_remove", "q.before_signal.timeout"]
 
 
-def script_from_steps(steps, prios):
+def script_from_steps(steps, prios, push_first=False, drops=False):
     """one gate-script step (or a few) per model step: which goroutine may pass which yield point next, and which
     point it must reach before the next model step is taken."""
     s = [{"op": "hold", "point": p, "id": ""} for p in HOLDS]
@@ -120,8 +123,10 @@ def script_from_steps(steps, prios):
                 elif to == "Pop":
                     s.append({"op": "await", "point": "q.loop_pop"})
             elif fr == "Pop":
+                if to == "Faulted":             # both quota lookups of this attempt fail
+                    s.append({"op": "fault", "point": "q.fault.get_quota", "ms": 2})
                 s.append({"op": "pass", "point": "q.loop_pop"})
-                if to in ("Grant", "Requeue"):
+                if to in ("Grant", "Requeue", "Faulted"):
                     s.append({"op": "await", "point": "q.quota", "id": st["cur"]})
                 else:
                     s.append({"op": "await", "point": "q.loop_pop" if to == "Pop" else "q.loop_tick"})
@@ -129,9 +134,10 @@ def script_from_steps(steps, prios):
                 s.append({"op": "pass", "point": "q.quota", "id": st["cur"]})
                 if not st["dead"]:
                     s.append({"op": "await", "point": "q.loop_pop" if to == "Pop" else "q.loop_tick"})
-            elif fr == "Requeue":
+            elif fr in ("Requeue", "Faulted"):
                 s.append({"op": "pass", "point": "q.quota", "id": st["cur"]})
-                s.append({"op": "await", "point": "q.requeued", "id": st["cur"]})
+                if not (fr == "Faulted" and drops):
+                    s.append({"op": "await", "point": "q.requeued", "id": st["cur"]})
                 s.append({"op": "await", "point": "q.loop_tick"})
         elif p == "watcher":
             # the real watcher works through the expired requests in an order of its own (map iteration): whichever
@@ -145,6 +151,9 @@ def script_from_steps(steps, prios):
             cancelled = True
         else:
             if fr == "Arrive":
+                # the two steps of the enrolment are separated by the yield points inside the queue's Enqueue: before the
+                # push (registered, not yet visible) or - for the reordered variant - after it (visible, not yet registered)
+                s.append({"op": "hold", "point": "mq.enqueued" if push_first else "mq.enqueue", "id": p})
                 s.append({"op": "arrive", "id": p, "prio": "p%d" % prios[p]})
                 if to == "Enroll":
                     s.append({"op": "await", "point": "q.after_slot_check", "id": p})
@@ -155,7 +164,10 @@ def script_from_steps(steps, prios):
                 if to == "Refuse":
                     s.append({"op": "await_verdict", "id": p})
                 else:
-                    s.append({"op": "await", "point": "q.enqueued", "id": p})
+                    s.append({"op": "await", "point": "mq.enqueued" if push_first else "mq.enqueue", "id": p})
+            elif fr == "Push":
+                s.append({"op": "unhold", "point": "mq.enqueued" if push_first else "mq.enqueue", "id": p})
+                s.append({"op": "await", "point": "q.enqueued", "id": p})
             elif fr == "Return":
                 s.append({"op": "await_verdict", "id": p})
             elif fr == "Remove":
@@ -177,7 +189,7 @@ def predicted_events(steps):
             break
         if p == "loop" and fr == "Pop":
             ev.append(("pick",))
-            if to in ("Grant", "Requeue"):
+            if to in ("Grant", "Requeue", "Faulted"):
                 ev.append(("quota", st["cur"], to == "Grant"))
         elif p == "loop" and fr == "Grant":
             ev.append(("grant", st["cur"]))
@@ -189,7 +201,7 @@ def predicted_events(steps):
             ev.append(("drain",))
         elif fr == "Arrive" and p.startswith("r"):
             ev.append(("arrive", p))
-        elif fr == "Enroll" and to != "Refuse":
+        elif fr == "Push":
             ev.append(("enq", p))
         elif fr == "Return":
             ev.append(("verdict", p, "allowed" if st["result"][p] == "success" else "blocked"))
@@ -224,10 +236,11 @@ def same_modulo_verdict_position(a, b):
     return fa == fb and va <= vb
 
 
-def directed_scenario(name, inst, steps):
+def directed_scenario(name, inst, steps, flags=None):
     return {"name": name, "config": {"align": True, "ttl_s": inst["TTL"] * TICK_MS // 1000, "queue_size": inst["QueueSize"],
                                       "qmax": inst["QMax"], "qwin_s": inst["QW"] * TICK_MS // 1000, "slack_ms": SLACK_MS},
-            "steps": script_from_steps(steps, PRIOS[inst["Prio"]])}
+            "steps": script_from_steps(steps, PRIOS[inst["Prio"]], push_first=bool((flags or {}).get("PushBeforeRegister")),
+                                       drops=bool((flags or {}).get("FaultDropsHead")))}
 
 
 # ---------------------------------------------------------------------------------------------- execution and judgement
@@ -561,6 +574,44 @@ def reduce_rounds(trace):
     return out, len(rounds), len(seen)
 
 
+def gap_scenario(k):
+    """the arrival path as separate steps: an urgent request is held in one of the gaps of its enrolment (after the slot
+    test / registered but not yet pushed / pushed - visible to the loop - but its Enqueue call not yet returned) while
+    the loop runs whole ticks; then it goes on and a less urgent request arrives.  The quota has room: the order clause
+    and the time clause judge whether the urgent one was lost (gated recording)."""
+    g = ["mq.enqueued", "mq.enqueue", "q.after_slot_check"][k % 3]
+    steps = [{"op": "hold", "point": g, "id": "r1"},
+             {"op": "arrive", "id": "r1", "prio": "p0"}, {"op": "await", "point": g, "id": "r1"},
+             {"op": "sleep", "ms": [250, 350][k % 2]},
+             {"op": "unhold", "point": g, "id": "r1"}, {"op": "await", "point": "q.enqueued", "id": "r1"},
+             {"op": "arrive", "id": "r2", "prio": "p1"}, {"op": "await", "point": "q.enqueued", "id": "r2"},
+             {"op": "arrive", "id": "r3", "prio": "p0"},
+             {"op": "end"}]
+    return {"name": "gap-%d" % k, "config": {"ttl_s": 2, "queue_size": 4, "qmax": 5, "qwin_s": 1, "slack_ms": SLACK_MS}, "steps": steps}
+
+
+def fault_scenario(k):
+    """faults at the loop's quota consultation (both lookups of 1..3 consecutive attempts fail) at different positions of a
+    history: before the first admission, on the blocked head while a less urgent request waits behind it, after the head
+    was admitted.  After the fault clears the order must be the same and nobody may be lost."""
+    pos, m = [("head", 1), ("first", 1), ("head", 3), ("second", 2)][k % 4]
+    steps = [{"op": "hold", "point": "q.loop_tick", "id": ""}]
+    if pos == "first":
+        steps.append({"op": "fault", "point": "q.fault.get_quota", "ms": 2 * m})
+    steps += [{"op": "arrive", "id": "r1", "prio": "p0"}, {"op": "await", "point": "q.enqueued", "id": "r1"}]
+    if pos != "first":
+        steps += [{"op": "pass", "point": "q.loop_tick"}, {"op": "await_verdict", "id": "r1"}]          # r1 uses up the window
+    steps += [{"op": "arrive", "id": "r2", "prio": "p1"}, {"op": "await", "point": "q.enqueued", "id": "r2"},
+              {"op": "arrive", "id": "r3", "prio": "p2"}, {"op": "await", "point": "q.enqueued", "id": "r3"}]
+    if pos == "head":
+        steps.append({"op": "fault", "point": "q.fault.get_quota", "ms": 2 * m})
+    steps.append({"op": "unhold", "point": "q.loop_tick", "id": ""})
+    if pos == "second":
+        steps += [{"op": "await_verdict", "id": "r2"}, {"op": "fault", "point": "q.fault.get_quota", "ms": 2 * m}]
+    steps.append({"op": "end"})
+    return {"name": "fault-%d" % k, "config": {"ttl_s": 3, "queue_size": 4, "qmax": 1, "qwin_s": 1, "slack_ms": SLACK_MS}, "steps": steps}
+
+
 def refill_scenario(rng, k):
     """a history, not a single burst: some requests end by TTL expiry while the quota is exhausted, then more requests
     than the queue holds arrive at once - the size clause is judged after the slots were given back (free-running)."""
@@ -601,7 +652,7 @@ def run(ctx):
                         "TTL and quota window are whole seconds; 1 model tick = 1 s in forced schedules",
                         "time predicate InTTL with %d ms scheduling slack, not judged while a script holds gates; ordering "
                         "predicates without slack" % SLACK_MS,
-                        "registration (AddRequest) and heap push are one model step; pop, StartProcessing and the quota call are one model step"]
+                        "registration (AddRequest) and heap push are two model steps; pop, StartProcessing and the quota call are one model step; a failed quota lookup is injected at both GetQuota calls of an attempt"]
 
     # ---- (1) TLC: exhaustive I => P, the code as it is with its open finding, and every model variant (all in parallel)
     q2 = "MC_fixed2.cfg"
@@ -638,7 +689,7 @@ def run(ctx):
 
     # ---- (2) spec -> code: the counterexample of each variant forced on the real code, judged by P
     names = list(VARIANTS)
-    scs = [directed_scenario(n, VARIANTS[n][0], variants[n][0]) for n in names]
+    scs = [directed_scenario(n, VARIANTS[n][0], variants[n][0], VARIANTS[n][1]) for n in names]
     # ---- (3) spec -> code: walks of the model of the code as it is, forced
     nw = 24 if not T else 300
     walks = []
@@ -672,6 +723,12 @@ def run(ctx):
     for k in range(3 if not T else 9):
         scs.append(overlap_scenario(ctx.rng, k))
         names.append("overlap-%d" % k)
+    for k in range(6 if not T else 12):
+        scs.append(gap_scenario(k))
+        names.append("gap-%d" % k)
+    for k in range(4 if not T else 12):
+        scs.append(fault_scenario(k))
+        names.append("fault-%d" % k)
     for k in range(3 if not T else 9):
         scs.append(refill_scenario(ctx.rng, k))
         names.append("refill-%d" % k)
@@ -723,7 +780,7 @@ def run(ctx):
             ctx.notes.append("open finding %s: the model's counterexample no longer shows on the real code" % kf)
 
     for n, t in zip(names, traces):          # the scripted families must have been followed (else they show nothing)
-        if n.startswith(("expiry-burst", "overlap", "burst")) and any(e["ev"] == "diverged" for e in t):
+        if n.startswith(("expiry-burst", "overlap", "burst", "gap", "fault")) and any(e["ev"] == "diverged" for e in t):
             ctx.notes.append("scripted scenario %s could not be followed: %s" % (n, [e for e in t if e["ev"] == "diverged"][0].get("why")))
     report(ctx, binary, [(n, sc, t, v) for n, sc, t, v in zip(names, scs, traces, verdicts) if v is not None])
     if not ctx.violations and forced < max(3, len(walks) // 4):
